@@ -111,6 +111,7 @@ pub struct SynS {}
 #[unit(Law, "law", 5e0)]
 #[unit(Lay, "lay", 31.000000000000004)]
 #[unit(Laz, "laz", 31)]
+#[unit(Lba, "lab", 37)]
 pub struct SynL {}
 
 /// More than thirty-two units (an unstable sort starts to reorder there), two
